@@ -231,10 +231,17 @@ func C02Scenarios(tier string) []*h.Scenario {
 	// fleet mode with a cool-down (30 s) shorter than the fleet ready timeout and than the scan interval
 	short := mk("c02.fleet.30s", true, false)
 	short.Groups[0].Opts.ScaleUpCoolDownPeriod = "30s"
+	// the documented extra scale-up triggers enabled: a starved pending pod or an over-age node inside
+	// the window must not get past the lock either
+	trig := mk("c02.setdesired.triggers", false, false)
+	trig.Groups[0].Opts.ScaleOnStarve = true
+	trig.Groups[0].Opts.MaxNodeAge = "15m"
+	trig.Groups[0].Opts.MaxNodes, trig.Groups[0].ASG.Max = 14, 16 // room for more than one scale-up
 	return []*h.Scenario{
 		zero,
 		short,
 		off,
+		trig,
 		mk("c02.setdesired", false, false),
 		mk("c02.setdesired.tainted", false, true),
 		mk("c02.fleet", true, false),
